@@ -929,6 +929,13 @@ def expand(prog: 'object') -> list[str]:
                                 b = _bind(sub, h.node, is_m, recv)
                                 if b is None or not all(_simple(v_) for v_ in b.values()):
                                     continue
+                                # the factory binds its arguments when it is called, the nested function reads the caller's
+                                # variables when it runs: the same only if those variables are not re-bound afterwards
+                                argn = {x.id for v_ in b.values() for x in ast.walk(v_) if isinstance(x, ast.Name)} - {'self'}
+                                later = blk[i + 1:]
+                                in_loop = any(isinstance(o_, (ast.For, ast.While)) and any(y is st for y in ast.walk(o_)) for o_ in ast.walk(caller.node))
+                                if in_loop or any(isinstance(x, ast.Name) and x.id in argn and isinstance(x.ctx, (ast.Store, ast.Del)) for y in later for x in ast.walk(y)):
+                                    continue
                                 g = hb[0]
                                 gparams = {x.arg for x in g.args.posonlyargs + g.args.args + g.args.kwonlyargs}
                                 if gparams & set(b) or any(isinstance(n, ast.Name) and n.id in b and isinstance(n.ctx, ast.Store) for n in ast.walk(g)):
